@@ -485,10 +485,11 @@ where
     R: Buf,
 {
     let len = usize::try_from(len).expect("u32 did not fit into usize");
-    let bytes = reader.copy_to_bytes(len);
-    if bytes.len() < len {
+    // `copy_to_bytes` panics when fewer bytes remain than are asked for.
+    if reader.remaining() < len {
         Err(MsgPackReadError::Incomplete)
     } else {
+        let bytes = reader.copy_to_bytes(len);
         let blob = Vec::from(bytes.as_ref());
         Ok(blob)
     }
